@@ -348,6 +348,16 @@ pub fn unescape_line(l: &str) -> String {
 }
 
 pub fn cli(args: &[String]) {
+    if args[0] == "sweep" {
+        for ctx_src in SWEEP_CONTEXTS {
+            for (setup, e) in SWEEP_EXPRS {
+                let s = format!("{setup}{}", ctx_src.replace('@', e));
+                let o = observe(&s);
+                println!("{:<60} {} {:?}", printable(&s), show_diags(&o), classify(&s, &o));
+            }
+        }
+        return;
+    }
     let text = std::fs::read_to_string(&args[0]).expect("file");
     for l in text.lines() {
         let src = unescape_line(l);
@@ -657,6 +667,62 @@ fn lexspan_source(rng: &mut Rng) -> String {
     s
 }
 
+/// template strings: segment spans are computed from CHARACTER counts and added to a byte offset
+fn template_source(rng: &mut Rng) -> String {
+    let mut lit = String::new();
+    for _ in 0..1 + rng.below(5) {
+        lit.push_str(*rng.pick(&[
+            "é", "们", "😀", "a", " ", "{{ x }}", "{{x}}", "{{ y }}", "{{ undefined_var }}", "\\n", "\\u{e9}", "{{ é }}", "{{", "}}", "\\{{ x \\}}",
+        ]));
+    }
+    let lit = lit.replace("\\\\", "\\");
+    let setup = *rng.pick(&["", "x = 1\n", "x = \"s\"\n", "x = .a\n", "y = \"é\"; x = y\n", "# 们\nx = \"a\"\n"]);
+    match rng.below(6) {
+        0 => format!("{setup}\"{lit}\""),
+        1 => format!("{setup}upcase(\"{lit}\")"),
+        2 => format!("{setup}.a = \"{lit}\""),
+        3 => format!("{setup}.a.\"{lit}\" = 1"),
+        4 => format!("{setup}{{ \"{lit}\": 1 }}"),
+        _ => format!("{setup}to_int(\"{lit}\") + 1"),
+    }
+}
+
+/// queries whose last character (for the lexer's `query_start` look-ahead) is multi-byte: the
+/// `RQuery` marker token gets the span `(end, end + 1)`
+fn query_source(rng: &mut Rng) -> String {
+    let head = *rng.pick(&[".a", "x.b", "{\"a\": 1}.a", "[1][0]", "f(1).a", ".a[0]", "%m.k", "t", ".", "%", "s", "to_int(.a).b"]);
+    let tail = *rng.pick(&[
+        "#é", "#é\n", "{é", "[é", "(é", "{ é }", "[ é ]", "{\"é\"}", ".\"é\"", "[\"é\"]", "#们\n.b", "[é\n", ".é", "é", "[0]#😀", "(\"é\")", "{ # é\n }", "[ 0 # é\n ]",
+    ]);
+    let suffix = *rng.pick(&["", "", " = 1", "\n1", " + 1", "\n", " ?? 1", ", err = to_int(.x)"]);
+    let prefix = *rng.pick(&["", "", "x = ", "del(", "y = 1\n", "if true { ", "[", "é = "]);
+    format!("{prefix}{head}{tail}{suffix}")
+}
+
+const SWEEP_EXPRS: &[(&str, &str)] = &[
+    ("", "\"é{{ zz }}\""),
+    ("x = \"s\"\n", "\"😀😀😀{{ x }}\""),
+    ("x = 1\n", "\"😀😀😀{{ x }}\""),
+    ("x = .b\n", "\"😀😀😀{{ x }}\""),
+    ("x = \"s\"\n", "\"😀😀😀{{ x }}😀😀😀😀\""),
+    ("", ".a#é\n"),
+    (".a = 1\n", ".a#们\n"),
+    (".a = \"s\"\n", ".a#😀\n "),
+    ("", "{\"k\": 1}.k#é\n"),
+];
+
+const SWEEP_CONTEXTS: &[&str] = &[
+    "@", "@\n1", "x = @", "y = @\ny", "if @ { 1 }", "if @ { 1 } else { 2 }", "if true { @ } else { 1 }", "upcase(@)", "upcase!(@)",
+    "to_int(@)", "to_int!(@)", "abort @", "return @", "@ ?? 1", "(@ ?? 1)", "@ | {}", "({} | @)", "!@", "!(@)", "a, err = @",
+    "a, err = to_int(@)", "@ - 1", "(1 / @)", "(@ + 1)", "foo(@)", "upcase(@, @)", "upcase(valu: @)", "upcase(value: @)", "[@]",
+    "{\"k\": @}", "(@ == 1) == 2", "@ = 1", ".a = @", ".z |= @", "del(@)", "exists(@)", "for_each(@) -> |k, v| { 1 }",
+    "for_each({}) -> |k, v| { @ }", "map_values({}) -> |v| { @ }", "parse_regex(\"a\", @)", "parse_grok!(\"a\", @)",
+    "format_timestamp!(now(), @)", "encode_json(@, pretty: @)", "@; @", "{ @ }\n1", "x = 1; x.a = @", "(false || @)", "(true && @)",
+    "(@ > 1)", "(to_string(@) ?? @)", "assert!(@)", "log(@)", "get_env_var!(@)", "string!(@)", "int(@)", "(@ == @)", "[1, 2][@]",
+    "_ = @", "ok, err = @", "if (x = @; true) { x }", "parse_json!(@).a", "to_int(@) + 1", "contains(@, @)", "@ * 2", "(@ && true)",
+    "merge({}, @)", "push([], @)", "parse_timestamp!(@, @)", "replace(@, r'a', @)", "match(@, r'a')", "now(@)", "uuid_v4(@)",
+];
+
 fn random_utf8(rng: &mut Rng) -> String {
     let n = rng.below(40);
     (0..n).map(|_| rand_char(rng)).collect()
@@ -804,6 +870,16 @@ pub fn generate(sink: &mut Sink, rng: &mut Rng, n: u64) {
     ] {
         emit_oracle(sink, &mut ctx, s, "edge");
     }
+    // systematic sweep: every context × every expression whose span is known to be computed wrongly
+    // (template strings: char counts added to byte offsets; queries ended by a comment whose last
+    // character is multi-byte: `RQuery = (end, end + 1)`), so that the set of (code, clause) classes
+    // observed does not depend on the seed
+    for ctx_src in SWEEP_CONTEXTS {
+        for (setup, e) in SWEEP_EXPRS {
+            let s = format!("{setup}{}", ctx_src.replace('@', e));
+            emit_oracle(sink, &mut ctx, &s, "sweep");
+        }
+    }
     // (a) unmodified programs: once per run
     for s in &tests {
         emit_oracle(sink, &mut ctx, s, "test_program");
@@ -814,8 +890,16 @@ pub fn generate(sink: &mut Sink, rng: &mut Rng, n: u64) {
     // n = number of generated cases; split over the streams
     for i in 0..n {
         match i % 20 {
+            8 => {
+                let s = template_source(rng);
+                emit_oracle(sink, &mut ctx, &s, "template");
+            }
+            9 => {
+                let s = query_source(rng);
+                emit_oracle(sink, &mut ctx, &s, "query_tail");
+            }
             // (b) mutations of (a), sometimes stacked
-            0..=9 => {
+            0..=7 => {
                 let base = rng.pick(&pool).clone();
                 let (mut s, bucket) = mutate(rng, &base, &pool);
                 let mut b = bucket;
